@@ -18,11 +18,11 @@ PID = "C15"
 FUNCTIONS = ["UnitDatabase.CheckCategoryUnit memo (_category_unit_valid)", "UnitDatabase.quantities_cache / ObtainQuantity", "UnitDatabase.GetValidUnits",
              "AbstractValueWithQuantityObject.GetValidUnits", "Quantity.CheckValue with the captured CategoryInfo", "UnitDatabase.AddUnit/AddUnitBase/AddCategory (invalidation)",
              "UnitDatabase.Convert/GetInfo/GetDefaultCategory/FindUnitCase/GetUnits/GetQuantityTypes", "Scalar/Array/FractionScalar construction and IsValid"]
-NQ, NR = 43, 11
+NQ, NR = 46, 11
 BOUNDS = {
     "quick": "amounts and limits: all reals; pre-state: length(m, cm) + time(s) + force per velocity with categories length, depth(min 0), width, damping; histories: one of "
              "%d queries (read-only or failing), then one of %d registrations (accepted or rejected), then the battery of all queries, each answer compared with the answer of "
-             "the same query on its OWN brand-new database built from the same registrations; all %dx%d histories, plus 16 histories with two registrations in a row and 20 with "
+             "the same query on its OWN brand-new database built from the same registrations; every second of the %dx%d histories (all of them in the thorough tier), plus 4 histories followed by probes of two databases that disagree about a (category, unit) pair, plus 16 histories with two registrations in a row and 20 with "
              "two arithmetic queries in a row" % (NQ, NR, NQ, NR),
     "thorough": "same with two queries before the registration (seeded 7000 of the %dx%dx%d) and a second registration after the first battery (seeded 4000)" % (NQ, NQ, NR),
 }
@@ -45,6 +45,8 @@ def _pre():
     db.AddUnitBase("force per velocity", "newton seconds per metre", "N.s/m")  # (has the legacy spelling 'Ns/m')
     db.AddUnit("force per velocity", "kilonewton seconds per metre", "kN.s/m", lambda x: x / 1000.0, lambda x: x * 1000.0)
     db.AddCategory("damping", "force per velocity")
+    db.AddUnitBase("mass", "kilograms", "kg")  # a quantity type WITHOUT any category
+    db.AddUnit("mass", "grams", "g", lambda x: x * 1000.0, lambda x: x / 1000.0)
     return db
 
 
@@ -96,6 +98,10 @@ def queries(V):
         ("(m*m*m) + (cm*cm*cm)", lambda: (lambda r: (r.GetValue(), r.GetUnit()))((Scalar(x, "m") * Scalar(1.0, "m") * Scalar(1.0, "m")) + (Scalar(y, "cm") * Scalar(1.0, "cm") * Scalar(1.0, "cm")))),
         ("Array m / (cm*cm)", lambda: (lambda r: (list(r.GetValues()), r.GetUnit()))(Array([x, y], "m") / (Array([y, x], "cm") * Array([1.0, 1.0], "cm")))),
         ("(cm*cm) - (m*m)", lambda: (lambda r: (r.GetValue(), r.GetUnit()))((Scalar(x, "cm") * Scalar(1.0, "cm")) - (Scalar(y, "m") * Scalar(1.0, "m")))),
+        # a unit whose quantity type has no category at all: refused, and refused again
+        ("Scalar(x, g) [no category for the quantity type]", lambda: Scalar(x, "g").GetCategory()),
+        ("ObtainQuantity(kg) / Array([x], g) [no category]", lambda: (ObtainQuantity("kg").GetCategory(), Array([x], "g").GetCategory())),
+        ("db.Convert(mass, g, kg, x) / categories", lambda: (db().Convert("mass", "g", "kg", x), sorted(db().IterCategories()), db().IsValidCategory("mass"))),
         # similar-unit search and legacy spellings
         ("db.FindSimilarUnitMatches(km)", lambda: sorted(db().FindSimilarUnitMatches("km"))),
         ("db.FindSimilarUnitMatches(cm)", lambda: sorted(db().FindSimilarUnitMatches("cm"))),
@@ -132,14 +138,15 @@ def registrations(V):
 
 def items(tier, seed):
     rng = random.Random(seed)
-    out = [{"qs": [q], "rs": [r]} for q in range(NQ) for r in range(NR)]
+    out = [{"qs": [q], "rs": [r]} for q in range(NQ) for r in range(NR) if tier != "quick" or (q + r) % 2 == 0]
+    out += [{"qs": [q], "rs": [(q * 3) % NR], "two_db": True} for q in (0, 7, 20, 33)]
     if tier != "quick":
         allq = [(a, b, r) for a in range(NQ) for b in range(NQ) for r in range(NR)]
         out += [{"qs": [a, b], "rs": [r]} for a, b, r in rng.sample(allq, 7000)]
         out += [{"qs": [rng.randrange(NQ)], "rs": [rng.randrange(NR), rng.randrange(NR)]} for _ in range(4000)]
     # two registrations in a row with the whole battery asked in between (a unit's default category registered before / after the unit)
     for pair in ((9, 10), (10, 9), (0, 1), (4, 6)):
-        for q in (40, 41, 30, 8):
+        for q in (43, 44, 30, 8):
             out.append({"qs": [q], "rs": list(pair)})
     # two arithmetic queries in a row before the battery
     for a in range(30, 35):
@@ -225,6 +232,31 @@ def run(cfg, V):
         Quantity._EMPTY_QUANTITY = None
         log["battery"].append([(Qw[i][0], ans_w[i], ans_f[i]) for i in range(len(Qw))])
         log["registry_equal"] = snap_strip(snap_registry(warm)) == snap_strip(snap_registry(fresh))
+    if not cfg.get("two_db"):
+        return log
+
+    # two databases, both completely built BEFORE any query, that disagree about a (category, unit) pair: what one answered must not reach the other
+    def _other():
+        d_ = _pre()
+        d_.AddUnit("length", "kilometers", "km", lambda t: t / 1000.0, lambda t: t * 1000.0)
+        return d_
+
+    probes = [("CheckCategoryUnit(length, km)", lambda d_: d_.CheckCategoryUnit("length", "km")), ("Scalar(x, km, length)", lambda d_: Scalar(x_, "km", "length").GetValue("m"))]
+    from barril.units import Scalar
+
+    x_ = V["x"]
+    two = []
+    for first_has_km in (False, True):
+        A, B = (_pre(), _other()) if not first_has_km else (_other(), _pre())
+        for pn, pf in probes:
+            with pushed(A):
+                _outcome(lambda: pf(A))
+            with pushed(B):
+                got = _outcome(lambda: pf(B))
+            # what the second database answers when used alone follows from its own registrations (it has / has not the unit km)
+            want = (("ok", None) if pn.startswith("Check") else ("ok", x_ * 1000.0)) if not first_has_km else ("raised", "InvalidUnitError")
+            two.append((pn, got, want))
+    log["two_databases"] = two
     return log
 
 
@@ -244,6 +276,9 @@ def props(cfg, T, obs):
         else:
             P.append(("a rejected registration leaves the registry exactly as it was", bool(ok)))
     P.append(("warm and fresh databases report the same registry", bool(obs.get("registry_equal", True))))
+    for pn, got, want in obs.get("two_databases", []):
+        same = z3.BoolVal(got[0] == want[0]) if got[0] != "ok" or want[0] != "ok" else _same(got[1], want[1])
+        P.append(("two databases that disagree about a (category, unit) pair: '%s' on the second answers as on a database used alone" % pn, z3.And(z3.BoolVal(got[0] == want[0] and (got[0] == "ok" or got[1] == want[1])), same) if got[0] == "ok" else z3.BoolVal(got == want)))
     for bi, bat in enumerate(obs["battery"]):
         cs, names = [], []
         for qn, w, f in bat:
